@@ -31,7 +31,7 @@ Definition p_mraw (L : nat) : parser (mraw (GRS L)) :=
                        if forallb (fun a => (nr a =? n) && (nc a =? m)) l then pret (M3 n m l) else pfail)
   else pfail.
 (* one chain element: kind (0 Plane, 1 Pupil, 2 lentil.Tilt), then for a plane: amplitude, opd, mask, pixelscale,
-   focal_length (Pupil), tilt list; for a Tilt: the stored attributes self.x, self.y *)
+   focal_length (Pupil), tilt list; for a Tilt: the stored attributes self.x, self.y, then its scalar amplitude and opd *)
 Definition p_plane0 (L : nat) (k : Z) : parser (result (plane (GRS L))) :=
   a <- p_amp L ;; o <- p_opd ;; m <- p_mraw L ;; px <- p_pix ;; f <- popt pQ ;; tl <- plist ptilt ;;
   pret (plane_init (gnz L) a o m px
@@ -39,8 +39,8 @@ Definition p_plane0 (L : nat) (k : Z) : parser (result (plane (GRS L))) :=
 Definition p_plane (L : nat) : parser (result (celem (GRS L))) :=
   k <- pZ ;;
   if k =? 2 then
-    (tx <- pQ ;; ty <- pQ ;;
-     pret (match plane_init (gnz L) (AmpS (gr1 L : GRS L)) (OpdS 0%Qc) MNone PixNone None [] with
+    (tx <- pQ ;; ty <- pQ ;; a <- pK L ;; o <- pQ ;;      (* a tilt-type plane is a Plane: scalar amplitude and opd kwargs *)
+     pret (match plane_init (gnz L) (AmpS a) (OpdS o) MNone PixNone None [] with
            | Ok P => Ok (CTilt (TiltAng tx ty) P) | Err e => Err e end))
   else if (k =? 0) || (k =? 1) then
     (r <- p_plane0 L k ;; pret (match r with Ok P => Ok (CPlane P) | Err e => Err e end))
